@@ -328,8 +328,24 @@ def main(argv):
     corpus = os.path.join(VERIF, "corpus", prop + ".txt")
     gen_dir = os.path.join(work, "gen")
     tstart = time.time()
-    rc, out = run([hbin, prop, a.tier, str(seed), gen_dir], env=env, timeout=7200)
-    if rc != 0:
+    try:
+        rc, out = run([hbin, prop, a.tier, str(seed), gen_dir], env=env, timeout=(14400 if a.tier == "thorough" else 1500))
+    except subprocess.TimeoutExpired:
+        rc, out = 124, "harness timed out"
+    hang = os.path.join(gen_dir, "hang.json")
+    if rc == 3 and os.path.exists(hang):
+        desc = open(hang).read()
+        try:
+            body = json.loads(desc)
+            rec = body.get("hung", body)
+            before = body.get("oracle_failures_before_the_hang", [])
+        except Exception:
+            rec, before = {"note": desc}, []
+        for b in before[:5]:
+            notes.append("oracle failure before the hang: " + b)
+        rp = write_replay(prop, "hang", "an operation of the implementation did not terminate within the budget (%s)" % (rec.get("op") or rec.get("note")), [], {"records": [rec] if "op" in rec else [], "detail": rec if "op" not in rec else None, "oracle_failures_before_the_hang": before})
+        violations.append(("hang", "an API operation did not return within its budget (unbounded work or endless loop)%s" % ("; before it: " + before[0] if before else ""), rp, True))
+    elif rc != 0:
         rp = write_replay(prop, "harness", "harness crashed while exercising the implementation", [], {"log": out[-3000:]})
         violations.append(("harness", "harness crashed (abort/alloc failure inside the implementation?)", rp, False))
     else:
